@@ -101,7 +101,12 @@ Section MemoryCore.
   | ClearFunc (k : nat)    (* w_k.clear() *)
   | ClearMem               (* memory.clear() *)
   | Evict (ds : list digest)   (* memory.reduce_size(...) removed exactly these entries *)
-  | NewProcess.            (* a fresh interpreter on the same cache directory and source files *)
+  | NewProcess             (* a fresh interpreter on the same cache directory and source files *)
+  | Forget (k : option nat).
+      (* _FUNCTION_HASHES no longer vouches for object k AT THIS STORE (Some k), or for any object (None): the
+         function was validated against ANOTHER cache location meanwhile (its entry now carries that location:
+         fix F45), or Memory.clear() of another location emptied the table.  Only issued by the multi-location
+         product model (Model/MemoryLoc.v). *)
 
   Inductive outcome :=
   | OSkip                  (* the event is not executable (no such object / wrapper / reference) *)
@@ -268,6 +273,9 @@ Section MemoryCore.
         (ODone,
          {| files := files st; disk := disk st; entries := entries st; table := []; live := [];
             wraps := []; refs := refs st |})
+    | Forget ok =>
+        (ODone, with_store st (disk st) (entries st)
+                  (match ok with Some k => remove_nat k (table st) | None => [] end))
     end.
 
   (* the run of a history: (state before the event, event, outcome) for every event *)
@@ -336,6 +344,10 @@ Section MemoryCore.
         Some {| m_live := m_live m; m_wraps := m_wraps m; m_stale := m_stale m; m_called := [];
                 m_cur := None |}
     | NewProcess => Some mon0
+    | Forget ok =>
+        Some {| m_live := m_live m; m_wraps := m_wraps m; m_stale := m_stale m;
+                m_called := match ok with Some k => remove_nat k (m_called m) | None => [] end;
+                m_cur := m_cur m |}
     | Get _ | ClearRef _ | Evict _ => Some m
     end.
 
@@ -351,7 +363,7 @@ Section MemoryCore.
   Definition quiet (s : src) (e : event) : bool :=
     match e with
     | Define j => src_eqb C (code C j) s
-    | Wrap _ | Get _ | NewProcess => true
+    | Wrap _ | Get _ | NewProcess | Forget _ => true
     | Call _ _ vld | Shelve _ _ vld | Check _ _ vld => vld
     | ClearRef _ | ClearFunc _ | ClearMem | Evict _ => false
     end.
